@@ -51,10 +51,54 @@ pub fn is_weakening(a: &str, b: &str) -> bool {
         return is_trivial_unique(u);
     }
     match (subst_part(u), subst_part(w)) {
-        (Some(x), Some(y)) => x == y,
+        (Some(x), Some(y)) => x == y || unshares(y, x),
         (None, None) => true,
         _ => false,
     }
+}
+
+/// `general` becomes `special` when its canonical variables are renamed by a (not necessarily injective) function:
+/// the guidance only lost variable sharing (`[V<^0.0>, ^0.1]` vs `[V<^0.0>, ^0.0]`), which anti-unification may do
+fn unshares(general: &str, special: &str) -> bool {
+    fn toks(s: &str) -> Vec<String> {
+        let b = s.as_bytes();
+        let mut out = vec![];
+        let mut i = 0;
+        while i < b.len() {
+            if b[i] == b'^' {
+                let mut j = i + 1;
+                while j < b.len() && (b[j].is_ascii_digit() || b[j] == b'.') {
+                    j += 1;
+                }
+                out.push(s[i..j].to_string());
+                i = j;
+            } else {
+                out.push((b[i] as char).to_string());
+                i += 1;
+            }
+        }
+        out
+    }
+    let (g, sp) = (toks(general), toks(special));
+    if g.len() != sp.len() {
+        return false;
+    }
+    let mut map: Vec<(String, String)> = vec![];
+    for (a, b) in g.iter().zip(&sp) {
+        if a.starts_with('^') {
+            if !b.starts_with('^') {
+                return false;
+            }
+            match map.iter().find(|(k, _)| k == a) {
+                Some((_, v)) if v != b => return false,
+                Some(_) => {}
+                None => map.push((a.clone(), b.clone())),
+            }
+        } else if a != b {
+            return false;
+        }
+    }
+    true
 }
 
 /// rendered `Ambiguous; definite substitution` whose guidance uses one canonical variable twice
